@@ -48,15 +48,31 @@ void harness(void)
         /* new read access */
         AR.access = DFACC_READ;
         H4V_ASSERT(HCIcrle_init(&AR) == SUCCEED, "C05.K1.init2");
+#if PHASE == 0
+        /* three read requests (R, R2-R, N-R2) */
         if (R > 0) H4V_ASSERT(HCPcrle_read(&AR, R, out) == R, "C05.K1.read1");
-        if (N - R > 0) H4V_ASSERT(HCPcrle_read(&AR, N - R, out + R) == N - R, "C05.K1.read2");
+        if (R2 - R > 0) H4V_ASSERT(HCPcrle_read(&AR, R2 - R, out + R) == R2 - R, "C05.K1.read2");
+        if (N - R2 > 0) H4V_ASSERT(HCPcrle_read(&AR, N - R2, out + R2) == N - R2, "C05.K1.read3");
         for (i = 0; i < N; i++) H4V_ASSERT(out[i] == in[i], "C05.K1.roundtrip: decoded byte differs from the byte written");
-        /* seek (backward or forward) and read again */
+#elif PHASE == 1
+        /* read everything, seek (backward), then read the rest in two requests */
+        H4V_ASSERT(HCPcrle_read(&AR, N, out) == N, "C05.K1.readall");
         H4V_ASSERT(HCPcrle_seek(&AR, Q, DF_START) == SUCCEED, "C05.K1.seek");
         if (N - Q > 0) {
-            H4V_ASSERT(HCPcrle_read(&AR, N - Q, out) == N - Q, "C05.K1.read3");
+            int first = (N - Q) > 1 ? 1 : (N - Q);
+            H4V_ASSERT(HCPcrle_read(&AR, first, out) == first, "C05.K1.read4");
+            if (N - Q - first > 0) H4V_ASSERT(HCPcrle_read(&AR, N - Q - first, out + first) == N - Q - first, "C05.K1.read5");
             for (i = 0; i < N - Q; i++) H4V_ASSERT(out[i] == in[Q + i], "C05.K1.seekread: byte after seek differs");
         }
+#else
+        /* forward seek inside the stream after a partial read, then read on */
+        if (N >= 3) {
+            H4V_ASSERT(HCPcrle_read(&AR, 1, out) == 1 && out[0] == in[0], "C05.K1.read6");
+            H4V_ASSERT(HCPcrle_seek(&AR, 2, DF_START) == SUCCEED, "C05.K1.seekfwd");
+            H4V_ASSERT(HCPcrle_read(&AR, N - 2, out) == N - 2, "C05.K1.read7");
+            for (i = 0; i < N - 2; i++) H4V_ASSERT(out[i] == in[2 + i], "C05.K1.fwdseekread: byte after a forward seek differs");
+        }
+#endif
     }
 #else
     {
